@@ -215,6 +215,7 @@ func (x *Exec) controllerWait() {
 		runtime.Gosched()
 	}
 	x.ctlRun = 0
+	raceJoinAll(x)
 }
 
 //go:norace
@@ -391,6 +392,9 @@ func WaitIdle() {
 //
 //go:norace
 func (x *Exec) yieldFrom(t *Thread, exiting bool) {
+	// every yield releases to the controller's word (threads never acquire it,
+	// so this creates thread->controller edges only, never thread->thread)
+	raceThreadEnd(x)
 	x.Steps++
 	if x.MaxSteps > 0 && x.Steps > x.MaxSteps && x.Abort == "" {
 		x.Abort = "max-steps"
@@ -408,7 +412,9 @@ func (x *Exec) yieldFrom(t *Thread, exiting bool) {
 		return
 	}
 	if next == nil {
-		// quiescence (or abort): wake the controller
+		// quiescence (or abort): wake the controller. The controller reads the
+		// state of the code under test through hooks, so it gets a
+		// thread->controller edge (threads never acquire it: no thread->thread edge).
 		x.cur = nil
 		x.ctlRun = 1
 	} else {
